@@ -24,4 +24,4 @@ For each change i = 1..{n} create a directory {wt}/out/m<i>/ containing:
  - demo.py : a small standalone program (plain quimb + numpy, no test framework) that exits 0 and prints PASS on the clean tree and exits 1 and prints FAIL with the change applied - it demonstrates the property being violated by comparing against an independent computation (dense numpy / a fresh scan / a definition), not against hard-coded numbers produced by the library itself;
  - meta.json : {{"property": "{pid}", "summary": "...what was changed...", "needs": "...what specific input/sequence is needed to manifest...", "tests_run": "...exact pytest command(s) you ran and their pass/fail counts with and without the change..."}}.
 
-How to check (2): run the most relevant test files with the change applied, at least: `cd {wt} && PYTHONPATH={wt} /venv/bin/python -m pytest -q -p no:cacheprovider -x -n 4 <relevant test files>` (e.g. the files under tests/ that exercise the code you touched - find them with grep), and compare with the same command on the clean tree. The machine is shared: use at most -n 4. Between changes always return to the clean tree with `git -C {wt} checkout -- quimb` (keep your out/ directory, it is untracked). Verify each demo on both the clean and the changed tree before you finish. Finish with the worktree clean (only the untracked out/ directory left) and reply with a short list: for each change its summary, what it needs to manifest, and the test commands/results.""")
+How to check (2): run the most relevant test files with the change applied, at least: `cd {wt} && OPENBLAS_NUM_THREADS=1 MKL_NUM_THREADS=1 NUMBA_NUM_THREADS=2 PYTHONPATH={wt} /venv/bin/python -m pytest -q -p no:cacheprovider -x -n 3 <relevant test files>` (e.g. the files under tests/ that exercise the code you touched - find them with grep), and compare with the same command on the clean tree. The machine is shared and heavily loaded: ALWAYS set OPENBLAS_NUM_THREADS=1 MKL_NUM_THREADS=1 NUMBA_NUM_THREADS=2 for every python/pytest command, use at most -n 3, and run only the most relevant test files (not whole directories). Between changes always return to the clean tree with `git -C {wt} checkout -- quimb` (keep your out/ directory, it is untracked). Verify each demo on both the clean and the changed tree before you finish. Finish with the worktree clean (only the untracked out/ directory left) and reply with a short list: for each change its summary, what it needs to manifest, and the test commands/results.""")
